@@ -220,6 +220,35 @@ def gen_nb_triple_bundled(r):
             base['metadata'], local['metadata'], remote['metadata'] = bm, lm, rm
     return base, local, remote, shape
 
+def gen_nb_triple_cellclash(r):
+    """(base, local, remote, shape): the two sides put DIFFERENT new cells at one position of the cell list and treat the
+    base cells that follow differently -- one side replaces the next cell (or the next two) by its new cell, the other
+    only inserts in front of it (shape 'replace-vs-insert'), or the two sides replace runs of different length
+    ('uneven-replace'), or both only insert ('insert-vs-insert').  Under the inline strategy the conflict is written
+    as marker cells around the two variants, and each variant is completed with the base cells its side kept."""
+    minor = r.choice([4, 5, 5])
+    n = r.choice([2, 3, 4])
+    cells = [gen_cell(r, i, minor) for i in range(n)]
+    base = {'nbformat': 4, 'nbformat_minor': minor, 'metadata': {}, 'cells': cells}
+    def fresh(tag):
+        c = {'cell_type': 'code', 'metadata': {}, 'execution_count': None, 'outputs': [],
+             'source': '%s_%d = compute_%s(%d)\nprint(%s_%d)\n' % (tag, r.randrange(100), tag, r.randrange(100), tag, r.randrange(100))}
+        if minor >= 5: c['id'] = '%s-new-%d' % (tag, r.randrange(1000))
+        return c
+    i = r.randrange(n)
+    shape = r.choice(['replace-vs-insert', 'replace-vs-insert', 'uneven-replace', 'insert-vs-insert'])
+    room = n - i
+    if shape == 'replace-vs-insert': drop = (r.choice([1, 2]) if room > 1 else 1, 0)
+    elif shape == 'uneven-replace': drop = (2, 1) if room > 1 else (1, 0)
+    else: drop = (0, 0)
+    if r.random() < 0.5: drop = (drop[1], drop[0])
+    sides = []
+    for tag, k in (('loc', drop[0]), ('rem', drop[1])):
+        nb_ = copy.deepcopy(base)
+        nb_['cells'][i:i + k] = [fresh(tag) for _ in range(r.choice([1, 1, 2]))]
+        sides.append(nb_)
+    return base, sides[0], sides[1], shape
+
 # merge arguments under which a conflict in a container makes a strategy re-bundle the container's decisions
 BUNDLING_ARGS = [None, {'merge_strategy': 'inline'}, {'merge_strategy': 'inline', 'output_strategy': 'remove'},
                  {'merge_strategy': 'inline', 'ignore_transients': False}, {'merge_strategy': 'use-base', 'output_strategy': 'inline'}]
